@@ -94,3 +94,50 @@ def depth2(types=None):
                     args = list(rest)
                     args.insert(pos, inner)
                     yield app(o, *args, params=ps)
+
+
+# ---------------------------------------------------------------- Boolean structure with quantifiers
+
+def bool_quant_terms(depth3_stride=None):
+    """Every Boolean formula built from at most two connectives / quantifiers over the leaves p, q, (i < j), True
+    - and, if depth3_stride is given, every depth_stride-th formula with three - where at each level one argument is
+    complex and the others are leaves (every argument position).  Quantifiers bind p or q (so a free occurrence of
+    the same name outside the binder clashes with it)."""
+    P, Q = sym("p", BOOL), sym("q", BOOL)
+    atom = app("LT", sym("i", INT), sym("j", INT))
+    leaves = [P, Q, atom, const(BOOL, True)]
+    side = [P, Q, atom]
+
+    def layer(inner_terms, sides):
+        for t in inner_terms:
+            yield app("NOT", t)
+            for v in ("p", "q"):
+                yield ("FORALL", ((v, BOOL),), (t,))
+                yield ("EXISTS", ((v, BOOL),), (t,))
+            for o in ("AND", "OR", "IMPLIES", "IFF"):
+                for s in sides:
+                    yield app(o, t, s)
+                    yield app(o, s, t)
+            for a in sides:
+                for b in sides[:2]:
+                    yield app("ITE", t, a, b)
+                    yield app("ITE", a, t, b)
+                    yield app("ITE", a, b, t)
+    d1 = list(layer(leaves, leaves))
+    # depth 1 also with both arguments equal / complex-free duplicates removed
+    seen = set()
+    out1 = []
+    for t in d1:
+        if t not in seen:
+            seen.add(t)
+            out1.append(t)
+    for t in out1:
+        yield t
+    d2 = []
+    for t in layer(out1, side):
+        d2.append(t)
+        yield t
+    if depth3_stride:
+        for k, t in enumerate(layer(d2, side[:2])):
+            if k % depth3_stride == 0:
+                yield t
